@@ -156,3 +156,16 @@ package candidates
 //@   requires c != nil && candObj(c, pubkey) != nil
 //@   ensures candObj(c, pubkey).Status == CandidateStatusOffline
 //@   modifies candObj(c, pubkey).Status, candObj(c, pubkey).isDirty, candCache
+
+//@ # C01/C16: a delegation (also the arrival of a moved stake) becomes one pending update of exactly that owner, coin
+//@ # and value on the target candidate, and the ledger is told the same coin and value
+//@ func (*Candidates).Delegate
+//@   serves C01 C16 C02
+//@   let cand = candObj(c, pubkey)
+//@   let n = old(len(cand.updates))
+//@   requires c != nil && c.bus != nil && value != nil && bipValue != nil
+//@   requires target: cand != nil
+//@   ensures pending: len(cand.updates) == n + 1 && cand.updates[n] != nil && cand.updates[n].Owner == address && cand.updates[n].Coin == coin && cand.updates[n].Value != nil && cand.updates[n].Value.val == old(value.val)
+//@   ensures kept: forall i int :: 0 <= i && i < n ==> cand.updates[i] == old(cand.updates[i])
+//@   ensures reported: ledgerDelta(c.bus.checker, coin) == old(ledgerDelta(c.bus.checker, coin)) + old(value.val)
+//@   modifies cand.updates, cand.isUpdatesDirty, candCache, ledgerDelta(c.bus.checker, coin)
